@@ -228,7 +228,7 @@ def correspondence(ctx):
     # would fall), as a middle block and as the first processed block
     long_blocks = GC.long_chain(r, "bitcoin", 16390 if ctx.thorough() else 4100)
     scns = []
-    for (hh, st) in [(4096, 1), (4096, 4096), (2048, 2000)] if not ctx.thorough() else [(4096, 1), (4096, 4096), (8192, 1), (8192, 8192), (16384, 1), (16384, 16384), (16384, 15000), (12288, 1), (16385, 1)]:
+    for (hh, st) in [(4096, 1), (4096, 4096), (2048, 2000)] if not ctx.thorough() else [(4096, 4096), (16384, 1), (16384, 16384)]:
         sc = K.Scenario(coin="bitcoin", callback=["simplestats", "csvdump"][hh % 3 == 0], verify=True, start=st)
         GC.simple_layout(sc, long_blocks, per_file=5000)
         rawh = long_blocks[hh].enc()
